@@ -593,17 +593,20 @@ def model_check(ctx):
         r = tlc.run("storage", "StorageMC", "StorageMC.cfg", cfg_text=text, timeout=3000, coverage=False,
                     out_name="storage_mc_%s_%s" % (ctx.pid, ctx.tier))
         r["constants"] = ["MaxTxn=%d" % ctx.pick(3, 4), "MaxRot=%d" % ctx.pick(2, 3), "MaxCompact=%d" % ctx.pick(1, 2),
-                          'Variant="repo"', "MaxCrash=1", "RecCap=1", 'RecoverVariant="repo"']
+                          'Variant="repo"', "MaxCrash=2", "RecCap=1", 'RecoverVariant="repo"']
         r["invariants"] = ["TypeOK", "Reopenable", "Durable", "Atomic", "Prefix"]
         ctx.add_tlc(r)
     # sessions: the pinned start-up (a split segment flushed in part, writer reopened on the old log number) must
     # still lose acknowledged transactions after a crash + recovery in the model
-    text = tlc.cfg_variant("storage", "StorageMC.cfg", subst={"RecoverVariant": '"orig"'}, drop=["INVARIANTS"],
-                           add=["INVARIANT Durable"])
-    r = tlc.run("storage", "StorageMC", "StorageMC_recover_orig.cfg", cfg_text=text, timeout=600, coverage=False,
-                must_pass=False, out_name="storage_recover_orig_%s" % ctx.pid)
-    if "Durable" not in r["violated"]:
-        raise core.ToolError('the Storage model with RecoverVariant "orig" no longer violates Durable')
+    # (and so must the first version of the repair, in which every part of a split segment still marked the whole
+    # segment as flushed: a crash between two of these flushes)
+    for rv in ("orig", "parts"):
+        text = tlc.cfg_variant("storage", "StorageMC.cfg", subst={"RecoverVariant": '"%s"' % rv}, drop=["INVARIANTS"],
+                               add=["INVARIANT Durable"])
+        r = tlc.run("storage", "StorageMC", "StorageMC_recover_%s.cfg" % rv, cfg_text=text, timeout=600, coverage=False,
+                    must_pass=False, out_name="storage_recover_%s_%s" % (rv, ctx.pid))
+        if "Durable" not in r["violated"]:
+            raise core.ToolError('the Storage model with RecoverVariant "%s" no longer violates Durable' % rv)
     # the model of the pinned behaviour must still exhibit the repaired defects (otherwise the model lost its teeth)
     for inv in ("Reopenable", "Durable", "Atomic", "Prefix"):
         text = tlc.cfg_variant("storage", "StorageMC.cfg", subst={"Variant": '"orig"'}, drop=["INVARIANTS"],
@@ -672,6 +675,19 @@ def validate_traces(ctx, results):
 def replay(ctx, rp):
     core.build_harness(["crash_reopen"])
     saved = rp.get("saved")
+    if not saved and rp.get("args") and rp.get("seed") is not None:
+        # a violation of the second generation: run that workload's sweep again (both generations)
+        core.build_harness(["storage_run", "crash_reopen"])
+        build_shim()
+        keep = os.path.join(core.WORK, "replay", "storage-%s-replay" % ctx.pid)
+        r = sweep_workload((0, rp["seed"], rp["args"], 400, ["process", "synced", "mid"], keep, 6))
+        if r.get("tool_error"):
+            raise core.ToolError("replay of the workload failed: %s" % r["tool_error"])
+        for v in r["violations"]:
+            if v["prop"] == ctx.pid:
+                ctx.violation(dict(rp, ticket=v.get("ticket")), {"class": v["class"], "model": "power" if v.get("model") not in (None, "process") else "process"},
+                              "%s: %s" % (v["class"], v["detail"][:300]))
+        return
     if not saved or not os.path.exists(os.path.join(saved, "ops0.log")):
         raise core.ToolError("the saved operation log of this replay is gone: %s" % saved)
     ops = fsimage.parse_log(os.path.join(saved, "ops0.log"))
